@@ -4,7 +4,9 @@ package fgen
 import (
 	"bytes"
 	"fmt"
+	"io"
 
+	"seehuhn.de/go/membudget"
 	"seehuhn.de/go/pdf"
 	"verif/sim/tape"
 )
@@ -65,7 +67,7 @@ func draw1(t *tape.Tape, lbl string, allowCCITT, plain bool) (c Case, ok bool) {
 		if p <= 1 {
 			return
 		}
-		colors = tape.Pick(t, lbl+".colors", 0, 1, 2, 3, 4, 5, 7)
+		colors = tape.Pick(t, lbl+".colors", 0, 1, 2, 3, 4, 5, 7, 8, 31, 32, 33, 40, 60, 61, 128, 255, 256)
 		bpc = tape.Pick(t, lbl+".bpc", 0, 8, 1, 2, 4, 16)
 		cols = tape.Pick(t, lbl+".cols", 0, 1, 2, 3, 5, 7, 8, 9, 16, 17, 31, 64, 100, 255, 256, 257, 1000)
 		return
@@ -139,11 +141,40 @@ func draw1(t *tape.Tape, lbl string, allowCCITT, plain bool) (c Case, ok bool) {
 		c.Class = map[string]string{"K": kc, "EndOfLine": fmt.Sprint(f.EndOfLine), "ByteAlign": fmt.Sprint(f.EncodedByteAlign), "EndOfBlock": fmt.Sprint(!f.IgnoreEndOfBlock)}
 		c.Desc = fmt.Sprintf("CCITT{K=%d EOL=%v Align=%v BlackIs1=%v IgnoreEOB=%v Columns=%d}", f.K, f.EndOfLine, f.EncodedByteAlign, f.BlackIs1, f.IgnoreEndOfBlock, f.Columns)
 	}
-	if _, _, err := c.Filter.Info(c.Version); err != nil {
+	name, dict, err := c.Filter.Info(c.Version)
+	if err != nil {
 		return c, false
+	}
+	// Info does not look at every range (Colors above 60 with the TIFF
+	// predictor, rows above the row-size cap): such a set is accepted by Info
+	// and then refused when the encoder is built.  It counts as rejected by
+	// validation only if the decoder rebuilt from the dictionary refuses it
+	// as well; an encoder that refuses what the decoder accepts stays a case
+	// (and fails the check).
+	if enc, err := c.Filter.Encode(c.Version, nopSink{}); err != nil {
+		f2, err2 := pdf.MakeFilter(name, dict)
+		if err2 != nil {
+			return c, false
+		}
+		rc, err3 := f2.Decode(c.Version, bytes.NewReader(nil), membudget.New(1<<30))
+		if err3 != nil {
+			return c, false
+		}
+		_, err4 := io.ReadAll(rc)
+		rc.Close()
+		if err4 != nil {
+			return c, false
+		}
+	} else {
+		enc.Close()
 	}
 	return c, true
 }
+
+type nopSink struct{}
+
+func (nopSink) Write(p []byte) (int, error) { return len(p), nil }
+func (nopSink) Close() error                { return nil }
 
 // Data draws input of admissible shape for the case.
 func Data(t *tape.Tape, lbl string, c *Case, maxLen int) []byte {
